@@ -5,7 +5,12 @@ Space   : every undirected simple graph on n <= 5 vertices and every digraph on 
           (edge array, reversed / doubled / duplicated edges, python list, dense and csr weighted adjacency),
           abstract and point-carrying; deterministic families up to 40 vertices (chains, cycles, stars,
           complete graphs, grids, binary trees, empty graphs) through the predefined constructors and
-          through weighted adjacency matrices.
+          through weighted adjacency matrices.  Argument forms (kind X roots): on chains, cycles, stars,
+          complete graphs and binary trees of 9 and 40 vertices the same payload is presented, one argument
+          kind at a time, in every form the unchanged tree accepts - edge arrays of all integer dtypes,
+          Fortran-ordered / strided / read-only, lists of tuples / arrays / numpy scalars; dense and csr
+          adjacency of float32 / int / uint8 / bool, Fortran / read-only / 64-bit indices; float32 / integer /
+          strided / read-only points; numpy-scalar vertex numbers and n_vertices; read-only / strided masks.
 Ops     : static queries, every (start, end) pair for find_path / find_all_paths / find_shortest_path, every
           MST root, every Tree(root) reading of a digraph, every vertex mask (structured masks for the
           families); thorough repeats all of this on the *result* of every mask (depth 2).
@@ -27,6 +32,21 @@ T_VARIANTS = ["el", "ep", "ac"]
 FULL_VARIANTS = ("el", "ac")  # construction letters that get the whole operation alphabet
 WEIGHTED = ("ad", "ac")
 
+# "argument form" letters: the same payload presented in every form the unchanged tree accepts (probed on /repo:
+# an outer tuple of edges, float vertex numbers, float16 / non-csr / list adjacency, list points, integer or list
+# masks are rejected or documented as unsupported and therefore are not letters)
+E_FORMS = ["int64", "int32", "int16", "int8", "uint8", "uint16", "uint32", "uint64", "F", "nc", "ro", "list-of-tuples", "list-of-arrays", "list-of-npint"]
+A_FORMS = ["dense:float32", "dense:int64", "dense:int32", "dense:int16", "dense:uint8", "dense:bool", "dense:F", "dense:ro",
+           "csr:float32", "csr:int32", "csr:uint8", "csr:bool", "csr:idx64", "csr:ro"]
+P_FORMS = ["float32", "int64", "F", "nc", "ro"]
+V_FORMS = ["int64", "int32", "int8", "uint8", "uint16", "intp"]
+M_FORMS = ["ro", "nc"]
+N_FORMS = ["int64", "int32", "uint8"]
+FORM_FACTORS = {"edges": E_FORMS, "adj": A_FORMS, "points": P_FORMS, "vertex": V_FORMS, "mask": M_FORMS, "nvert": N_FORMS}
+FORM_FAMILIES = [("chain", "U"), ("chain", "D"), ("chain", "T"), ("cycle", "U"), ("cycle", "D"), ("star", "U"), ("star", "D"), ("star", "T"),
+                 ("complete", "U"), ("complete", "D"), ("binary", "T")]
+FORM_SIZES = [9, 40]  # 40: beyond the range of 8-bit products / sums of vertex numbers
+
 
 def _bits(mask_bits, n):
     return np.array([(mask_bits >> i) & 1 for i in range(n)], dtype=bool)
@@ -42,6 +62,7 @@ class C14(Check):
 
     def __init__(self, tier, seed):
         super(C14, self).__init__(tier, seed)
+        self._vc = int  # how vertex arguments are presented to menpo (argument-form letter of the current state)
         self._reported = set()  # (root, finding id): an open finding is returned as a Failure once per root
 
     def depth(self):
@@ -98,7 +119,7 @@ class C14(Check):
                     out.append(("T", 5, code, r, "P", "el", "lite"))
         # the family roots are the expensive ones (seconds each): spread them evenly through the list so that
         # the contiguous chunks handed to the worker processes each get a few of them
-        fam = self._family_roots()
+        fam = self._family_roots() + self._form_roots()
         stride = max(1, len(out) // max(1, len(fam)))
         mixed = []
         for i, r in enumerate(out):
@@ -142,6 +163,20 @@ class C14(Check):
             out.append(("F", "binary", n, 0, "U", "P", "ac", "full"))
         return out
 
+    def _form_roots(self):
+        """one factor at a time: every form of one argument kind, all other arguments in their base form."""
+        out = []
+        for n in FORM_SIZES:
+            for name, kind in FORM_FAMILIES:
+                extra = n // 2 if name == "star" else 0
+                for cls in ("A", "P"):
+                    for factor, forms in FORM_FACTORS.items():
+                        if (factor in ("points", "mask") and cls != "P") or (factor == "nvert" and cls != "A"):
+                            continue
+                        for form in forms:
+                            out.append(("X", name, n, extra, kind, cls, factor, form, "form"))
+        return out
+
     # ------------------------------------------------------------------------------------------ payload
     def _points(self, n, salt, d=2):
         return rs(self.seed, "c14pts", salt, n, d).rand(n, d) * 5.0
@@ -167,6 +202,8 @@ class C14(Check):
             edges = orient_from_root(n, prufer_tree(n, code), troot)
             directed = True
             salt = (kind, n, code, troot)
+        elif kind == "X":
+            return self._build_form(root)
         else:
             return self._build_family(root)
         pts = self._points(n, salt) if cls == "P" else None
@@ -213,16 +250,155 @@ class C14(Check):
             return "adj", csr_matrix((dense[r, c], (r, c)), shape=(n, n))
         raise ValueError(variant)
 
-    def _instantiate(self, klass, how, arg, n, pts, troot):
+    def _instantiate(self, klass, how, arg, n, pts, troot, raw=False):
+        """raw: hand the arguments over exactly as they are (argument-form letters must not be copied away)."""
         point = pts is not None
+        p = pts if (raw or not point) else pts.copy()
         if how == "edges":
             if point:
-                return klass.init_from_edges(pts.copy(), arg, troot) if troot is not None else klass.init_from_edges(pts.copy(), arg)
+                return klass.init_from_edges(p, arg, troot) if troot is not None else klass.init_from_edges(p, arg)
             return klass.init_from_edges(arg, n, troot) if troot is not None else klass.init_from_edges(arg, n)
-        a = arg.copy()
+        a = arg if raw else arg.copy()
         if point:
-            return klass(pts.copy(), a, troot) if troot is not None else klass(pts.copy(), a)
+            return klass(p, a, troot) if troot is not None else klass(p, a)
         return klass(a, troot) if troot is not None else klass(a)
+
+    # ---- argument forms
+    @staticmethod
+    def _edge_form(edges, form):
+        base = np.array(edges, dtype=np.int64).reshape(-1, 2)
+        if form in ("int64", "int32", "int16", "int8", "uint8", "uint16", "uint32", "uint64"):
+            return base.astype(form)
+        if form == "F":
+            return np.asfortranarray(base)
+        if form == "nc":
+            big = np.full((2 * len(base), 4), -7, dtype=np.int64)
+            big[::2, ::2] = base
+            return big[::2, ::2]
+        if form == "ro":
+            a = base.copy()
+            a.flags.writeable = False
+            return a
+        if form == "list-of-tuples":
+            return [tuple(int(x) for x in e) for e in base]
+        if form == "list-of-arrays":
+            return [np.array(e) for e in base]
+        if form == "list-of-npint":
+            return [[np.int64(a), np.int32(b)] for a, b in base]
+        raise ValueError(form)
+
+    def _adj_form(self, directed, n, edges, form, salt):
+        """(matrix in the requested form, weights as float64 values actually representable in that form)."""
+        from scipy.sparse import csr_matrix
+
+        container, what = form.split(":")
+        w = self._weights(edges, salt)
+        if what == "bool":
+            w = {e: 1.0 for e in w}
+        elif what == "uint8":
+            w = {e: float((int(v) - 1) % 200 + 1) for e, v in w.items()}
+        dense = np.zeros((n, n))
+        for (a, b) in edges:
+            dense[a, b] = w[(a, b)]
+            if not directed:
+                dense[b, a] = w[(a, b)]
+        dtype = what if what in ("float32", "int64", "int32", "int16", "uint8", "bool") else "float64"
+        typed = (dense != 0) if dtype == "bool" else dense.astype(dtype)
+        assert np.array_equal(typed.astype(np.float64), dense), "weights not representable in %s" % dtype
+        if container == "dense":
+            if what == "F":
+                typed = np.asfortranarray(typed)
+            elif what == "ro":
+                typed.flags.writeable = False
+            return typed, w
+        mat = csr_matrix(typed)
+        if what == "idx64":
+            mat.indices = mat.indices.astype(np.int64)
+            mat.indptr = mat.indptr.astype(np.int64)
+        elif what == "ro":
+            for a in (mat.data, mat.indices, mat.indptr):
+                a.flags.writeable = False
+        return mat, w
+
+    @staticmethod
+    def _point_form(pts64, form):
+        if form == "float32":
+            return pts64.astype(np.float32)
+        if form == "int64":
+            return np.round(pts64 * 10).astype(np.int64)
+        if form == "F":
+            return np.asfortranarray(pts64.copy())
+        if form == "nc":
+            big = np.zeros((pts64.shape[0], 2 * pts64.shape[1]))
+            big[:, ::2] = pts64
+            return big[:, ::2]
+        if form == "ro":
+            a = pts64.copy()
+            a.flags.writeable = False
+            return a
+        raise ValueError(form)
+
+    @staticmethod
+    def _mask_form(mask, form):
+        if form is None:
+            return mask.copy()
+        if form == "ro":
+            a = mask.copy()
+            a.flags.writeable = False
+            return a
+        if form == "nc":
+            big = np.zeros(2 * len(mask), dtype=bool)
+            big[::2] = mask
+            return big[::2]
+        raise ValueError(form)
+
+    def _build_form(self, root):
+        _, name, size, extra, kind, cls, factor, form, mode = root
+        n, edges = self._family_edges(name, size, extra, kind)
+        directed = kind in ("D", "T")
+        troot = (extra if name == "star" else 0) if kind == "T" else None
+        klass = self._classes(directed, troot, cls)
+        pts_live = self._points(n, ("X", name, size), d=3 if name == "binary" else 2) if cls == "P" else None
+        vc, mform, n_arg, how, weights = int, None, n, "edges", None
+        if factor == "edges":
+            arg = self._edge_form(edges, form)
+        elif factor == "adj":
+            how = "adj"
+            arg, weights = self._adj_form(directed, n, edges, form, ("X", name, size, kind))
+        else:
+            arg = np.array(edges, dtype=np.int64).reshape(-1, 2)
+        if factor == "points":
+            pts_live = self._point_form(pts_live, form)
+        elif factor == "vertex":
+            vc = getattr(np, form)
+        elif factor == "mask":
+            mform = form
+        elif factor == "nvert":
+            n_arg = getattr(np, form)(n)
+        # the expectation is computed in float64 from the values that are handed over
+        pts_ref = np.array(pts_live, dtype=np.float64, copy=True) if pts_live is not None else None
+        refused = None
+        try:
+            g = self._instantiate(klass, how, arg, n_arg, pts_live, None if troot is None else vc(troot), raw=True)
+        except ValueError as ex:
+            if troot is None:
+                raise
+            g, refused = None, ex
+        return {
+            "root": root,
+            "g": g,
+            "refused": refused,
+            "m": self._model(directed, n, edges, weights, "form"),
+            "pts": pts_ref,
+            "cls": klass.__name__,
+            "troot": troot,
+            "mode": mode,
+            "ctor": (how, arg, cls),
+            "family": True,
+            "vc": vc,
+            "mform": mform,
+            "raw": (n_arg, pts_live),
+        }
 
     def _model(self, directed, n, edges, weights, variant):
         arcs = {}
@@ -412,6 +588,31 @@ class C14(Check):
             if st["family"] or st["root"][-2] != "ac" or n != n0 - 1:
                 return out
             second_mask = False
+        if mode == "form":
+            if level >= 1:
+                return out
+            few = list(range(n)) if n <= 5 else sorted(set([0, n // 2, n - 1]))
+            if n <= 5:
+                pairs = [(s, e) for s in range(n) for e in range(n)]
+            else:
+                pairs = [(0, n - 1), (n - 1, 0), (0, 1), (n // 2, n // 2), (1, n // 3), (n // 3, n - 2), (n - 2, n // 2), (n // 2, 0), (7, n - 3), (n - 1, n - 1)]
+            for s, e in pairs:
+                out.append(("path", s, e))
+                if m.weights_defined:
+                    out.append(("sp", s, e, "auto", False))
+                out.append(("sp", s, e, "auto", True))
+            if not m.directed:
+                for r in few:
+                    out.append(("mst", r))
+            if astree:
+                for r in few:
+                    out.append(("astree", r))
+            if st["cls"].startswith("Point"):
+                full = 2 ** n - 1
+                even = sum(1 << v for v in range(0, n, 2))
+                for b in [full, full & ~1, full & ~(1 << (n - 1)), full & ~(1 << (n // 2)), even, 2 ** (n // 2 + 1) - 1]:
+                    out.append(("mask", b))
+            return out
         if mode == "full":
             pairs = [(s, e) for s in range(n) for e in range(n)]
             # find_path / find_shortest_path are inherited unchanged by the point-carrying classes: at the largest
@@ -437,6 +638,7 @@ class C14(Check):
     # ------------------------------------------------------------------------------------------ step
     def apply(self, st, op, verify=True):
         k = op[0]
+        self._vc = st.get("vc", int)
         if k == "mask":
             return self._op_mask(st, op[1], verify)
         if not verify:
@@ -446,6 +648,8 @@ class C14(Check):
         if k == "static":
             f = self._static(st["g"], st["m"], st["pts"], st["cls"], "queries")
             self.note("static:%s" % ("ok" if not f else "fail"))
+            if st["root"][0] == "X" and not f:
+                self.note("form-ok:%s:%s:%s" % (st["root"][6], st["root"][7], "n>12" if st["m"].n > 12 else "small"))
             return f
         if k == "tree":
             return self._tree(st["g"], st["m"], st["troot"], "tree-queries")
@@ -476,6 +680,8 @@ class C14(Check):
     def _op_built(self, st):
         if st["refused"] is None:
             self.note("built:ok")
+            if st["root"][0] == "X":
+                self.note("form-built:%s:%s" % (st["root"][6], st["root"][7]))
             return []
         m = st["m"]
         ctx = "%s(n=%d, arcs %r, root %d) [letter %s]" % (st["cls"], m.n, m.edge_list(), st["troot"], st["root"][-2])
@@ -524,20 +730,20 @@ class C14(Check):
         # per-vertex relations
         for v in range(n):
             if m.directed:
-                ch = _ints(g.children(v))
-                pa = _ints(g.parents(v))
+                ch = _ints(g.children(self._vc(v)))
+                pa = _ints(g.parents(self._vc(v)))
                 if sorted(ch) != m.out[v] or len(ch) != len(m.out[v]):
                     bad("children", "children(%d)=%r expected %r" % (v, ch, m.out[v]))
                 if sorted(pa) != m.inn[v] or len(pa) != len(m.inn[v]):
                     bad("parents", "parents(%d)=%r expected %r" % (v, pa, m.inn[v]))
-                if g.n_children(v) != len(m.out[v]) or g.n_parents(v) != len(m.inn[v]):
-                    bad("n_children/n_parents", "vertex %d: %r/%r expected %d/%d" % (v, g.n_children(v), g.n_parents(v), len(m.out[v]), len(m.inn[v])))
+                if g.n_children(self._vc(v)) != len(m.out[v]) or g.n_parents(self._vc(v)) != len(m.inn[v]):
+                    bad("n_children/n_parents", "vertex %d: %r/%r expected %d/%d" % (v, g.n_children(self._vc(v)), g.n_parents(self._vc(v)), len(m.out[v]), len(m.inn[v])))
             else:
-                nb = _ints(g.neighbours(v))
+                nb = _ints(g.neighbours(self._vc(v)))
                 if sorted(nb) != m.out[v] or len(nb) != len(m.out[v]):
                     bad("neighbours", "neighbours(%d)=%r expected %r" % (v, nb, m.out[v]))
-                if g.n_neighbours(v) != len(m.out[v]):
-                    bad("n_neighbours", "n_neighbours(%d)=%r expected %d" % (v, g.n_neighbours(v), len(m.out[v])))
+                if g.n_neighbours(self._vc(v)) != len(m.out[v]):
+                    bad("n_neighbours", "n_neighbours(%d)=%r expected %d" % (v, g.n_neighbours(self._vc(v)), len(m.out[v])))
         iso = sorted(_ints(g.isolated_vertices()))
         if iso != m.isolated() or bool(g.has_isolated_vertices()) != bool(m.isolated()):
             bad("isolated", "isolated_vertices %r (has=%r) expected %r" % (iso, g.has_isolated_vertices(), m.isolated()))
@@ -547,8 +753,8 @@ class C14(Check):
             bad("adjacency_list", "adjacency list %r expected %r" % ([_ints(x) for x in al], m.out))
         for a in range(n):
             for b in range(n):
-                if bool(g.is_edge(a, b)) != ((a, b) in m.w):
-                    bad("is_edge", "is_edge(%d, %d)=%r expected %r" % (a, b, bool(g.is_edge(a, b)), (a, b) in m.w))
+                if bool(g.is_edge(self._vc(a), self._vc(b))) != ((a, b) in m.w):
+                    bad("is_edge", "is_edge(%d, %d)=%r expected %r" % (a, b, bool(g.is_edge(self._vc(a), self._vc(b))), (a, b) in m.w))
         # cycle and tree tests
         cyc = m.has_cycle()
         got_c = bool(g.has_cycles())
@@ -609,24 +815,24 @@ class C14(Check):
             return F
         children = [sorted(c for c in range(n) if parent[c] == v) for v in range(n)]
         for v in range(n):
-            p = t.parent(v)
+            p = t.parent(self._vc(v))
             p = None if p is None else int(p)
             if p != parent[v]:
                 bad("parent", "parent(%d)=%r expected %r" % (v, p, parent[v]))
-            ps = _ints(t.parents(v))
+            ps = _ints(t.parents(self._vc(v)))
             if ps != ([] if parent[v] is None else [parent[v]]):
                 bad("parent", "parents(%d)=%r expected %r" % (v, ps, parent[v]))
-            ch = sorted(_ints(t.children(v)))
+            ch = sorted(_ints(t.children(self._vc(v))))
             if ch != children[v]:
                 bad("children", "children(%d)=%r expected %r" % (v, ch, children[v]))
             for c in ch:
-                pc = t.parent(c)
+                pc = t.parent(self._vc(c))
                 if pc is None or int(pc) != v:
                     bad("parent-children-inverse", "%d is a child of %d but parent(%d)=%r" % (c, v, c, pc))
-            if int(t.depth_of_vertex(v)) != depth[v]:
-                bad("depth", "depth_of_vertex(%d)=%r expected %d" % (v, t.depth_of_vertex(v), depth[v]))
-            if bool(t.is_leaf(v)) != (not children[v]):
-                bad("leaf", "is_leaf(%d)=%r but children %r" % (v, t.is_leaf(v), children[v]))
+            if int(t.depth_of_vertex(self._vc(v))) != depth[v]:
+                bad("depth", "depth_of_vertex(%d)=%r expected %d" % (v, t.depth_of_vertex(self._vc(v)), depth[v]))
+            if bool(t.is_leaf(self._vc(v))) != (not children[v]):
+                bad("leaf", "is_leaf(%d)=%r but children %r" % (v, t.is_leaf(self._vc(v)), children[v]))
         pl = [None if p is None else int(p) for p in t.predecessors_list]
         if pl != parent:
             bad("parent", "predecessors_list %r expected %r" % (pl, parent))
@@ -650,7 +856,7 @@ class C14(Check):
         F = []
         reach = m.dist(True)[s, e] < INF
         for method in ("bfs", "dfs"):
-            route = _ints(g.find_path(s, e, method=method))
+            route = _ints(g.find_path(self._vc(s), self._vc(e), method=method))
             if s == e:
                 if route == [s]:
                     self.note("find_path:start==end-trivial")
@@ -670,17 +876,17 @@ class C14(Check):
         # every simple path (only where the enumeration is small)
         if m.n <= 5 or len(m.pairs()) <= m.n:
             ref = m.simple_paths(s, e)
-            got = [tuple(_ints(p)) for p in g.find_all_paths(s, e)]
+            got = [tuple(_ints(p)) for p in g.find_all_paths(self._vc(s), self._vc(e))]
             if sorted(got) != ref:
                 F.append(Failure("find_all_paths", "simple-paths", "%s arcs %r: find_all_paths(%d, %d) = %r expected %r" % (st["cls"], m.edge_list(), s, e, got, ref)))
-            if int(g.n_paths(s, e)) != len(ref):
-                F.append(Failure("find_all_paths", "n_paths", "n_paths(%d, %d) = %r expected %d" % (s, e, g.n_paths(s, e), len(ref))))
+            if int(g.n_paths(self._vc(s), self._vc(e))) != len(ref):
+                F.append(Failure("find_all_paths", "n_paths", "n_paths(%d, %d) = %r expected %d" % (s, e, g.n_paths(self._vc(s), self._vc(e)), len(ref))))
             self.note("find_all_paths:%s" % ("none" if not ref else "one" if len(ref) == 1 else "several"))
         return F
 
     def _op_sp(self, st, s, e, alg, unw):
         g, m = st["g"], st["m"]
-        res = g.find_shortest_path(s, e, algorithm=alg, unweighted=unw)
+        res = g.find_shortest_path(self._vc(s), self._vc(e), algorithm=alg, unweighted=unw)
         route, cost = _ints(res[0]), float(res[1])
         D = m.dist(unw)
         ctx = "%s arcs %r: find_shortest_path(%d, %d, %s, unweighted=%r) = (%r, %r)" % (
@@ -720,7 +926,7 @@ class C14(Check):
         g, m = st["g"], st["m"]
         n = m.n
         try:
-            t, exc = g.minimum_spanning_tree(r), None
+            t, exc = g.minimum_spanning_tree(self._vc(r)), None
         except ValueError as ex:
             t, exc = None, ex
         if n == 1 or m.n_components() != 1:
@@ -761,7 +967,10 @@ class C14(Check):
         how, arg, cls = st["ctor"]
         klass = ms.PointTree if cls == "P" else ms.Tree
         try:
-            t, exc = self._instantiate(klass, how, arg, m.n, st["pts"], r), None
+            if st.get("raw") is not None:
+                t, exc = self._instantiate(klass, how, arg, st["raw"][0], st["raw"][1], self._vc(r), raw=True), None
+            else:
+                t, exc = self._instantiate(klass, how, arg, m.n, st["pts"], r), None
         except ValueError as ex:
             t, exc = None, ex
         ok = m.is_arborescence(r)
@@ -784,7 +993,7 @@ class C14(Check):
         troot = st["troot"]
         where = "from_mask/%s" % st["cls"]
         try:
-            h, exc = g.from_mask(mask.copy()), None
+            h, exc = g.from_mask(self._mask_form(mask, st.get("mform"))), None
         except ValueError as ex:
             h, exc = None, ex
         ctx = "%s(n=%d, edges %r%s).from_mask(%r)" % (st["cls"], n, m.edge_list(), "" if troot is None else ", root %d" % troot, mask.astype(int).tolist())
@@ -862,6 +1071,11 @@ class C14(Check):
             "mask:tree-whole",
         ]
         out = ["outcome %s never produced" % n for n in need if not notes.get(n)]
+        for factor, forms in FORM_FACTORS.items():
+            for form in forms:
+                for size in ("small", "n>12"):
+                    if not notes.get("form-ok:%s:%s:%s" % (factor, form, size)):
+                        out.append("argument form %s=%s was never exercised with a passing static check (%s)" % (factor, form, size))
         if not any(k.startswith("mask:all-false") for k in notes):
             out.append("no all-false mask was applied")
         # routes of one, two, three and more edges must have been priced (right, or with the D11 footprint)
@@ -891,11 +1105,15 @@ class C14(Check):
             "directed_variants": D_VARIANTS,
             "tree_variants": T_VARIANTS,
             "full_alphabet_variants": list(FULL_VARIANTS),
+            "argument_forms": FORM_FACTORS,
+            "argument_form_families": ["%s/%s" % f for f in FORM_FAMILIES],
+            "argument_form_sizes": FORM_SIZES,
             "sp_letters": "auto x {weighted, unweighted}" + (" + FW/D/BF/J (abstract classes, below the largest scope)" if self.tier == "thorough" else ""),
         }
 
     def assumptions(self):
         return [
+            "argument forms (kind X roots): one argument kind at a time (edge array dtype/container/layout, adjacency dtype/container/layout, point dtype/layout, numpy-scalar vertex numbers, read-only / strided masks, numpy n_vertices) on chains, cycles, stars, complete graphs and binary trees of 9 and 40 vertices, abstract and point-carrying; only forms the unchanged tree accepts (outer tuples, float vertex numbers, float16 / non-csr / list adjacency, list points, integer masks are not letters); expectations are float64 values of the payload",
             "simple graphs only (no self loops); weights are distinct positive integers stored as floats, so all sums are exact",
             (
                 "quick: every mask/pair/root for undirected n<=4, directed n<=3, trees n<=4; undirected n=5 and directed n=4 get the static queries (and Tree(root) readings) only"
